@@ -267,4 +267,17 @@ theorem backlog_restored_once (sp : Spec) (bl : List Cmd) (w : World) (hw : w.wf
     · rw [i4]; simp [dispatchPlain]; omega
     · rw [i5]; simp [dispatchPlain]; omega
 
+/-- FINDING (known, `join-created-idle`): a RunTask command restored from the backlog has lost its `wait`
+    flag and its unique key (commands.restore_command_from_dict): for a JOIN target too it creates an
+    ordinary IDLE execution without unique key - which `start_task` runs at once, without the join condition
+    being checked - instead of deferring to the join's WAITING execution.  Real engine = model after every
+    event: corpus/core/restored_join.json. -/
+theorem restored_join_is_plain (sp : Spec) (w : World) (c : Cmd) (k : JoinKind) (hw : w.wf = .RUNNING)
+    (_hj : isJoin sp c.target = some k) (hc : cmdKind c.target = .task) :
+    dispatchOneX sp true w c = dispatchPlain w c ∧
+    (dispatchPlain w c).tasks = w.tasks ++ [{ newRow w c .IDLE with keyed := false }] := by
+  have h1 : isCompleted w.wf = false := by rw [hw]; decide
+  have h2 : (w.wf == St.PAUSED) = false := by rw [hw]; decide
+  exact ⟨by simp only [dispatchOneX, h1, h2, hc, Bool.false_eq_true, if_false, if_true], rfl⟩
+
 end Mistral.Props.C11X
